@@ -25,8 +25,8 @@
 (*   Utility/ExtensionTypes.c "BinopSlot" (maybe_self_is_left/right,        *)
 (*   overloads_left/right, call_left/call_right = the class's own method    *)
 (*   or <func>_maybe_call_slot(tp_base, left, right), see ModuleNode.       *)
-(*   generate_binop_function).  With AllPython = TRUE every class is a      *)
-(*   Python class: then Imp is CPython's algorithm on plain classes and     *)
+(*   generate_binop_function).  In states with allpy = TRUE every class is  *)
+(*   a Python class: then Imp is CPython's algorithm on plain classes and   *)
 (*   must equal Ref (two independent formulations of the reference).        *)
 (*                                                                          *)
 (* State machine: Init picks the operand kinds, in-place or not and the     *)
@@ -37,8 +37,8 @@
 (*   are published with (result, call log) of Ref and of Imp.               *)
 EXTENDS Integers, Sequences, FiniteSets, TLC, Json
 
-CONSTANTS Pairs,        \* set of <<left kind, right kind>>
-          AllPython,    \* TRUE: treat every class as a Python class (reference cross-check)
+CONSTANTS Pairs,        \* set of <<left kind, right kind>> explored with the cdef classes
+          PairsRef,     \* ... explored with every class taken as a Python class (reference cross-check)
           Dump
 
 Kinds == {"C", "S", "T", "P", "O", "D"}
@@ -47,12 +47,13 @@ Anc == [C |-> <<"C">>, S |-> <<"S", "C">>, T |-> <<"T", "S", "C">>, P |-> <<"P",
 BaseOf(k) == IF Len(Anc[k]) > 1 THEN Anc[k][2] ELSE ""
 Range(s) == {s[i] : i \in 1..Len(s)}
 IsSub(a, b) == b \in Range(Anc[a])             \* non-strict
-Cdef == IF AllPython THEN {} ELSE {"C", "S", "T", "D"}
 Involved(x, y) == Range(Anc[x]) \cup Range(Anc[y])
 
-VARIABLES l, r, ip, defs, beh,
+VARIABLES allpy,            \* TRUE: every class is a plain Python class in Imp (then Imp must equal Ref)
+          l, r, ip, defs, beh,
           ref, imp          \* Ref and Imp evaluated in the current state (kept in the state so that each is computed once)
-vars == <<l, r, ip, defs, beh, ref, imp>>
+vars == <<allpy, l, r, ip, defs, beh, ref, imp>>
+Cdef == IF allpy THEN {} ELSE {"C", "S", "T", "D"}
 
 NI == "NI"
 Val(mid) == IF mid \in DOMAIN beh THEN beh[mid] ELSE NI
@@ -183,7 +184,8 @@ NextMethod == IF Undecided(ref.log) # {} THEN ref.log[Min(Undecided(ref.log))].m
               ELSE ""
 IsCase == NextMethod = ""
 
-Init == /\ \E p \in Pairs : l = p[1] /\ r = p[2]
+Init == /\ allpy \in BOOLEAN
+        /\ \E p \in (IF allpy THEN PairsRef ELSE Pairs) : l = p[1] /\ r = p[2]
         /\ ip \in BOOLEAN
         /\ defs \in [Involved(l, r) -> SUBSET M]
         \* __iop__ can only matter for `x op= y` and in the ancestry of x: other configurations are not enumerated
@@ -192,7 +194,7 @@ Init == /\ \E p \in Pairs : l = p[1] /\ r = p[2]
         /\ ref = Ref /\ imp = Imp
 
 Decide(b) == /\ beh' = beh @@ (NextMethod :> b)
-             /\ UNCHANGED <<l, r, ip, defs>>
+             /\ UNCHANGED <<allpy, l, r, ip, defs>>
              /\ ref' = Ref' /\ imp' = Imp'
 DecideRef == Undecided(ref.log) # {} /\ \E b \in {"V", NI} : Decide(b)
 DecideImp == /\ Undecided(ref.log) = {} /\ Undecided(imp.log) # {}       \* a method only the implementation calls
@@ -213,6 +215,7 @@ RefShape == LET rf == ref IN
 (* Imp = Ref.  With AllPython = TRUE this says that CPython's algorithm on plain classes is the    *)
 (* language-reference protocol (must hold); with the cdef classes it is what C28 demands.           *)
 ImplAgrees == IsCase => imp = ref
+RefIsCPythonOnPlainClasses == (IsCase /\ allpy) => imp = ref
 
 (* Structural description of where the generated slot function leaves the protocol (TLC checks   *)
 (* that Imp = Ref everywhere else):                                                                 *)
@@ -227,20 +230,22 @@ HSame == l = r /\ l \in Cdef /\ Lookup(l, "rop") # ""
 Chained(k) == k \in Cdef /\ OwnBin(k) /\ BaseOf(k) # "" /\ SlotFn(BaseOf(k)) # None
 HChained == \E k \in {l, r} : \E a \in Range(Anc[k]) : Chained(a)
 Hazard == HSame \/ HChained
-ImplAgreesOffHazards == (IsCase /\ ~Hazard) => imp = ref
+ImplAgreesOffHazards == (IsCase /\ ~allpy /\ ~Hazard) => imp = ref
 
 Relation == IF l = r THEN "same_type" ELSE IF IsSub(r, l) THEN "right_is_subclass"
             ELSE IF IsSub(l, r) THEN "left_is_subclass" ELSE "unrelated"
 
 K4 == {"C", "S", "O", "D"}
 K5 == {"C", "S", "T", "O", "D"}
-PairsRefQuick == {<<x, y>> \in {"C", "S", "P", "O"} \X {"C", "S", "P", "O"} : TRUE}
+PairsRefQuick == ({"C", "S", "P"} \X {"C", "S", "P"}) \cup {<<"C", "O">>, <<"O", "C">>, <<"O", "S">>}
+PairsStrict == {<<"C", "C">>}
+NoPairs == {}
 PairsQuick == {<<x, y>> \in K4 \X K4 : ~(x = "O" /\ y = "O")}
 PairsDeep  == {<<x, y>> \in K5 \X K5 : ~(x = "O" /\ y = "O")}
 PairsFull  == {<<x, y>> \in Kinds \X Kinds : ~(x = "O" /\ y = "O")}
 
 Str(log) == [i \in 1..Len(log) |-> log[i].mid \o ":" \o log[i].so]
-Publish == (Dump /\ IsCase) =>
+Publish == (Dump /\ IsCase /\ ~allpy) =>
   PrintT("@@" \o ToJson([l |-> l, r |-> r, ip |-> ip, defs |-> defs, beh |-> beh, rel |-> Relation,
                           res |-> ref.res, log |-> Str(ref.log), ires |-> imp.res, ilog |-> Str(imp.log),
                           hsame |-> HSame, hchained |-> HChained]))
